@@ -349,3 +349,19 @@ Example C10_equal_fold_guard_satisfiable :
   evalS (env_of [("x", VStr "Go"); ("y", VStr "gO")] []) (rw_lhs (rw_equal_fold_both (EIdent "x" TString) (EIdent "y" TString))) []
     = Some (RVal (VBool true), []).
 Proof. vm_compute. reflexivity. Qed.
+
+(* ---------------- round 6: pointers to arrays and maps are values of the model ---------------- *)
+(* unslice's filter (string or slice type) is necessary: on a pointer to an array `p[:]` => `p` changes the value
+   (slice vs pointer), and for a nil pointer a panic becomes a value.  C10_unslice_preserves above is the positive side. *)
+Theorem C10_unslice_pointer_to_array_refuted :
+  exists en s, env_ok en /\ typeof s = Some TPArr /\ typeof (rw_lhs (rw_unslice s)) = Some TInts /\
+    eval en (rw_lhs (rw_unslice s)) = Some (RVal (VInts [1; 2; 3]%Z), []) /\
+    eval en (rw_rhs (rw_unslice s)) = Some (RVal (VPArr 3 (Some [1; 2; 3]%Z)), []).
+Proof. exact unslice_pointer_to_array_refuted. Qed.
+Print Assumptions C10_unslice_pointer_to_array_refuted.
+
+Theorem C10_unslice_nil_pointer_to_array_refuted :
+  exists en s, env_ok en /\ typeof s = Some TPArr /\
+    eval en (rw_lhs (rw_unslice s)) = Some (RPanic, []) /\ eval en (rw_rhs (rw_unslice s)) = Some (RVal (VPArr 3 None), []).
+Proof. exact unslice_nil_pointer_to_array_refuted. Qed.
+Print Assumptions C10_unslice_nil_pointer_to_array_refuted.
